@@ -62,7 +62,9 @@ var c12Ops = []c12Op{
 	{ID: "PMpRel", Method: "post", Path: "/mprel", Bodies: []string{"multipart/related"},
 		Resps: []c12Resp{{Code: "200", Media: []string{"application/json"}}, {Code: "201", Media: []string{"multipart/related"}}}},
 	{ID: "PGet", Method: "get", Path: "/p/{id}",
-		Resps: []c12Resp{{Code: "200", Media: []string{"application/json"}}, {Code: "304"}}},
+		Resps: []c12Resp{{Code: "200", Media: []string{"application/json"}}, {Code: "304"},
+			// one component response without content under two status codes of the operation
+			{Code: "401", Ref: "Denied"}, {Code: "403", Ref: "Denied"}}},
 }
 
 var c12Payload = J{"type": "object", "required": []interface{}{"a"}, "properties": J{"a": J{"type": "string"}, "n": J{"type": "integer"}}}
@@ -104,7 +106,8 @@ func c12Doc() J {
 		paths[o.Path] = J{o.Method: op}
 	}
 	return J{"openapi": "3.0.3", "info": J{"title": "t", "version": "1"}, "paths": paths,
-		"components": J{"schemas": J{"Payload": c12Payload}, "responses": J{"NotFound": c12RespJ(c12Resp{Media: []string{"application/json"}}), "Wild": c12RespJ(c12Resp{Media: []string{"application/*+json"}})}}}
+		"components": J{"schemas": J{"Payload": c12Payload}, "responses": J{"NotFound": c12RespJ(c12Resp{Media: []string{"application/json"}}), "Wild": c12RespJ(c12Resp{Media: []string{"application/*+json"}}),
+			"Denied": c12RespJ(c12Resp{})}}}
 }
 
 func c12RespJ(r c12Resp) J {
